@@ -826,13 +826,20 @@ pub fn run(ctx: &Ctx) -> Result<Run, String> {
     let mut stats = iso::run(&sp, &cfg)?;
     stats.count("isolated_cases", n as u64);
     cose_struct_sweep(&mut stats);
+    // (4) scaling families, each family x key pattern in its own isolated worker slot
+    let scale = super::c15_scale::ScaleSpace::new(ctx.tier);
+    let ns = scale.len();
+    let scfg = IsoConfig { prop: "C15".into(), mode: "scale".into(), tier: ctx.tier.name(), workers: ctx.threads.min(ns).max(1), segment: 1, every: 1, stack_mb: 8 };
+    let sstats = iso::run(&scale, &scfg)?;
+    stats.merge(sstats);
+    stats.count("scaling_family_cases", ns as u64);
     let (hs, ht) = hid_search(ctx.tier, ctx.threads, &mut stats);
     stats.count("hid_states", hs);
     stats.count("hid_transitions", ht);
     let ndec = sp.decs.len();
     let mut run = Run::from_stats(
         "exploration",
-        "for each of 27 public decoders (CTAP2 CBOR messages, authenticator data, WebAuthn JSON, base64, U2F raw messages, COSE-key converter, fingerprints, asset links, RP-ID verification, public-suffix lookups): (1) all byte strings up to length 2 (3 thorough) / all strings over an 8-symbol alphabet up to length 5 (7 thorough); (2) every single deviation of valid seed encodings of every message type: truncation at every position, every byte value at every position (CBOR/binary; a 17-symbol menu for JSON/text), and splices at every position of CBOR heads of every major type with declared lengths 2^8..2^64-1 / indefinite, 300- and 100000-deep nesting, JSON structure/number/escape fragments, long and dotted labels (thorough: all pairs of byte-level deviations on short seeds); run in isolated worker processes with a counting allocator (single request > 4 MiB + 32 x input length, or > 256 MiB in total = out of proportion; > 1 GiB refused), 8 MiB stack, per-case watchdog; (2b) COSE keys built as structs (0..2 entries per coordinate from a menu of lengths and types, three label orders, repeated labels included) given to the converter directly; (3) CTAPHID: BFS over packet sequences on the real ChannelHandler (alphabet: 2 channels x 8 init heads + 4 continuation sequence numbers x 13 packet sizes), deduplicated on the hook snapshot. Non-trivial = distinct non-empty input",
+        "for each of 27 public decoders (CTAP2 CBOR messages, authenticator data, WebAuthn JSON, base64, U2F raw messages, COSE-key converter, fingerprints, asset links, RP-ID verification, public-suffix lookups): (1) all byte strings up to length 2 (3 thorough) / all strings over an 8-symbol alphabet up to length 5 (7 thorough); (2) every single deviation of valid seed encodings of every message type: truncation at every position, every byte value at every position (CBOR/binary; a 17-symbol menu for JSON/text), and splices at every position of CBOR heads of every major type with declared lengths 2^8..2^64-1 / indefinite, 300- and 100000-deep nesting, JSON structure/number/escape fragments, long and dotted labels (thorough: all pairs of byte-level deviations on short seeds); run in isolated worker processes with a counting allocator (single request > 4 MiB + 32 x input length, or > 256 MiB in total = out of proportion; > 1 GiB refused), 8 MiB stack, per-case watchdog; (2b) COSE keys built as structs (0..2 entries per coordinate from a menu of lengths and types, three label orders, repeated labels included) given to the converter directly; (4) scaling families: 14 well-formed message shapes whose collection (PRF per-credential map, allow/exclude list, parameter list, unknown members, COSE parameters, JSON lists and maps, base64 text) grows to 256, 1024, 4096, 16384 (thorough: 65536) elements, with ids/keys that differ only at the front, only at the end or only in the middle, decoded in isolated workers: 4x the elements may not cost more than 9x the CPU time (judged once the larger run exceeds 10 ms, confirmed by a second measurement) nor an allocation out of proportion; (3) CTAPHID: BFS over packet sequences on the real ChannelHandler (alphabet: 2 channels x 8 init heads + 4 continuation sequence numbers x 13 packet sizes), deduplicated on the hook snapshot. Non-trivial = distinct non-empty input",
         true,
         stats,
     );
@@ -846,6 +853,20 @@ pub fn run(ctx: &Ctx) -> Result<Run, String> {
 pub fn replay(_ctx: &Ctx, case: &Value) -> Result<Vec<Finding>, String> {
     if case.get("packets").is_some() {
         return hid_replay(case);
+    }
+    if let Some(sc) = case.get("scale") {
+        for tier in [Tier::Quick, Tier::Thorough] {
+            let sp = super::c15_scale::ScaleSpace::new(tier);
+            if let Some(idx) = sp.find(sc["family"].as_str().unwrap_or(""), sc["pattern"].as_u64().unwrap_or(99) as u8) {
+                let one = super::c15_scale::OneScale { inner: sp, idx };
+                let cfg = IsoConfig { prop: "C15".into(), mode: format!("scale-one:{idx}"), tier: tier.name(), workers: 1, segment: 1, every: 1, stack_mb: 8 };
+                let st = iso::run(&one, &cfg)?;
+                if !st.findings.is_empty() || tier == Tier::Thorough {
+                    return Ok(st.findings.into_values().map(|x| x.0).collect());
+                }
+            }
+        }
+        return Err("scaling family not found".into());
     }
     if case.get("cose_struct").is_some() {
         let mut st = Stats::new();
